@@ -30,7 +30,17 @@ def gen(seed, extra):
     o = dict(qubit_mode=True, p_shuffle_children=0.0, p_rep=0.08, rep_kinds=["constant"], p_through=0.3, p_passthrough=0.25, max_children=4,
              leaf_inputs=[0, 1, 1, 2, 2], size_thresholds=(0.45, 0.8, 0.8), rich=0.0, p_zero_size=0.05)
     o.update(extra or {})
-    return G.gen_routine(rng, G.Opts(**o))
+    spec = G.gen_routine(rng, G.Opts(**o))
+
+    # now and then a routine already CARRIES a resource named like the derived one (a stale value from an earlier export, a
+    # hand-written estimate): the derived value replaces it
+    def stale(n):
+        if n["repetition"] is None and rng.random() < 0.12 and not any(r["name"] == "qubit_highwater" for r in n["resources"]):
+            n["resources"].append({"name": "qubit_highwater", "type": "qubits", "value": E.num(rng.randint(0, 3))})
+        for c in n["children"]:
+            stale(c)
+    stale(spec)
+    return spec
 
 
 def expected_hw(node, env, salt, feats):
